@@ -39,15 +39,18 @@ def turning_points(signal):
     return [(0, signal[0])] + interior_reversals(signal) + [(n - 1, signal[n - 1])]
 
 
-def fourpoint(points):
+def fourpoint(points, exact=False):
     """points: [(index, value)].  Returns (cycles, residual); a cycle is
-    ((index_from, value_from), (index_to, value_to)) in closing order."""
+    ((index_from, value_from), (index_to, value_to)) in closing order.
+    exact=True: ranges are compared in exact rational arithmetic instead of rounded double differences."""
+    from fractions import Fraction
+    conv = Fraction if exact else (lambda x: x)
     stack = []
     cycles = []
     for p in points:
         while len(stack) >= 3:
-            a, b, c = stack[-3][1], stack[-2][1], stack[-1][1]
-            d = p[1]
+            a, b, c = conv(stack[-3][1]), conv(stack[-2][1]), conv(stack[-1][1])
+            d = conv(p[1])
             bc = abs(b - c)
             if bc <= abs(a - b) and bc <= abs(c - d):
                 cycles.append((stack[-2], stack[-1]))
@@ -62,7 +65,7 @@ def fourpoint_signal(signal):
     return fourpoint(turning_points(signal))
 
 
-def hcm_clormann_seeger(reversals):
+def hcm_clormann_seeger(reversals, exact=False):
     """HCM on a list of reversal values.  Returns (cycles [(from, to)], residue).
 
     Residue stack RES with IZ = len(RES) and IR = number of residue points that lie on
@@ -75,15 +78,18 @@ def hcm_clormann_seeger(reversals):
          K is pushed.
       (IZ < IR: K is pushed.)
     """
+    from fractions import Fraction
+    conv = Fraction if exact else (lambda x: x)
     res = []
     ir = 1
     cycles = []
-    for k in reversals:
+    for k_ in reversals:
+        k = k_
         while True:
             iz = len(res)
             if iz > ir:
                 i, j = res[-2], res[-1]
-                if abs(k - j) >= abs(j - i):
+                if abs(conv(k) - conv(j)) >= abs(conv(j) - conv(i)):
                     cycles.append((i, j))
                     del res[-2:]
                     continue
